@@ -35,229 +35,234 @@ def run(ctx):
     cb, rb = body_of(comm), body_of(runp)
 
     # ---------------- R1
-    R = 'C15-R1'
-    dl = next((v for v in walk(cb) if v.get('kind') == 'VarDecl' and 'deadline' in (v.get('name') or '')), None)
-    ctx.require(dl is not None, 'communicate: deadline variable not found')
-    init = strip(kids(dl)[-1])
-    ok0 = init.get('kind') == 'ConditionalOperator' and int_value(init['inner'][2]) == 0 and nf(init['inner'][0]) == 'timeout_usecs'
-    ctx.check(ok0, R, 'sentinel-defined', dl, 'no timeout -> deadline 0', 'the "no deadline" sentinel is no longer 0 when timeout_usecs is 0')
-    uses = []
-    for x in walk(cb):
-        if x.get('kind') == 'BinaryOperator' and x.get('opcode') in ('<', '>', '<=', '>=', '-') and any((ref_decl(y) or {}).get('id') == dl['id'] for y in x['inner']):
-            uses.append(x)
-    ctx.require(len(uses) >= 2, 'communicate: deadline comparisons not found')
-    for i, x in enumerate(uses):
-        tf = truthy_facts(x)
-        ctx.check(dl['name'] in tf, R, 'deadline-use#%d|%s' % (i, nf(x)[:40]), x, 'evaluated only with a non-zero deadline',
-                  '`%s` is evaluated even when no deadline was requested (deadline 0): now() < 0 is false, so a call without a timeout is treated as already timed out' % nf(x))
+    with ctx.section('C15-R1', 'C15'):
+        R = 'C15-R1'
+        dl = next((v for v in walk(cb) if v.get('kind') == 'VarDecl' and 'deadline' in (v.get('name') or '')), None)
+        ctx.require(dl is not None, 'communicate: deadline variable not found')
+        init = strip(kids(dl)[-1])
+        ok0 = init.get('kind') == 'ConditionalOperator' and int_value(init['inner'][2]) == 0 and nf(init['inner'][0]) == 'timeout_usecs'
+        ctx.check(ok0, R, 'sentinel-defined', dl, 'no timeout -> deadline 0', 'the "no deadline" sentinel is no longer 0 when timeout_usecs is 0')
+        uses = []
+        for x in walk(cb):
+            if x.get('kind') == 'BinaryOperator' and x.get('opcode') in ('<', '>', '<=', '>=', '-') and any((ref_decl(y) or {}).get('id') == dl['id'] for y in x['inner']):
+                uses.append(x)
+        ctx.require(len(uses) >= 2, 'communicate: deadline comparisons not found')
+        for i, x in enumerate(uses):
+            tf = truthy_facts(x)
+            ctx.check(dl['name'] in tf, R, 'deadline-use#%d|%s' % (i, nf(x)[:40]), x, 'evaluated only with a non-zero deadline',
+                      '`%s` is evaluated even when no deadline was requested (deadline 0): now() < 0 is false, so a call without a timeout is treated as already timed out' % nf(x))
 
     # ---------------- R2
-    R = 'C15-R2'
+    with ctx.section('C15-R2', 'C15'):
+        R = 'C15-R2'
 
-    def poll_loops(body):
-        return [lp for lp in walk(body) if lp.get('kind') == 'WhileStmt' and any(c.get('kind') == 'CXXMemberCallExpr' and call_name(c) == 'poll' for c in walk(lp))]
-    for f, lab in ((comm, 'communicate'), (runp, 'run_process')):
-        body = body_of(f)
-        lps = poll_loops(body)
-        ctx.require(len(lps) == 1, '%s: poll loop not found' % lab)
-        lp = lps[0]
-        writes = [c for c in walk(lp) if c.get('kind') == 'CallExpr' and call_name(c) in ('write', 'writex', 'send')]
-        ctx.require(len(writes) >= 1, '%s: pipe write not found in the poll loop' % lab)
-        nb = {nf(call_args(c)[0]) for s in preceding_statements(lp) for c in walk(s) if c.get('kind') == 'CallExpr' and call_name(c) == 'make_fd_nonblocking'}
-        for i, w in enumerate(writes):
-            from guard import subst_locals as _sl
-            fd = _sl(nf(call_args(w)[0]), w)
-            size = call_args(w)[2]
-            # the descriptor as registered: run_process writes to pfd.first taken from the poll result of descriptors all made non-blocking
-            nonblocking = fd in nb or (fd == 'pfd.first' and {'sp.stdin_fd()', 'sp.stdout_fd()', 'sp.stderr_fd()'} <= nb)
-            bounded = False
-            bound_txt = nf(size)
-            rd = ref_decl(size)
-            vd = next((v for v in walk(lp) if v.get('kind') == 'VarDecl' and rd and v.get('id') == rd.get('id') and kids(v)), None)
-            e = strip(kids(vd)[-1]) if vd is not None else strip(size)
-            if e.get('kind') == 'CallExpr' and call_name(e) == 'min':
-                consts = [int_value(a) for a in call_args(e) if int_value(a) is not None]
-                bounded = bool(consts) and min(consts) <= PIPE_BUF
-                bound_txt = 'min(..., %s)' % consts
-            reported = any('count' in s_ and fd in s_ for s_ in truthy_facts(w)) or any('POLLOUT' in s_ or '& 4' in s_ or '(4 & ' in s_ for s_ in truthy_facts(w))
-            ctx.check(nonblocking or (bounded and reported), R, '%s|write#%d' % (lab, i), w, 'non-blocking descriptor' if nonblocking else 'at most PIPE_BUF bytes after POLLOUT',
-                      'write of %s bytes to the blocking descriptor %s inside the poll loop: poll only guarantees PIPE_BUF (%d) bytes of room, so the parent can block in write() while the child blocks writing its output - a deadlock no deadline can break' % (bound_txt, fd, PIPE_BUF))
+        def poll_loops(body):
+            return [lp for lp in walk(body) if lp.get('kind') == 'WhileStmt' and any(c.get('kind') == 'CXXMemberCallExpr' and call_name(c) == 'poll' for c in walk(lp))]
+        for f, lab in ((comm, 'communicate'), (runp, 'run_process')):
+            body = body_of(f)
+            lps = poll_loops(body)
+            ctx.require(len(lps) == 1, '%s: poll loop not found' % lab)
+            lp = lps[0]
+            writes = [c for c in walk(lp) if c.get('kind') == 'CallExpr' and call_name(c) in ('write', 'writex', 'send')]
+            ctx.require(len(writes) >= 1, '%s: pipe write not found in the poll loop' % lab)
+            nb = {nf(call_args(c)[0]) for s in preceding_statements(lp) for c in walk(s) if c.get('kind') == 'CallExpr' and call_name(c) == 'make_fd_nonblocking'}
+            for i, w in enumerate(writes):
+                from guard import subst_locals as _sl
+                fd = _sl(nf(call_args(w)[0]), w)
+                size = call_args(w)[2]
+                # the descriptor as registered: run_process writes to pfd.first taken from the poll result of descriptors all made non-blocking
+                nonblocking = fd in nb or (fd == 'pfd.first' and {'sp.stdin_fd()', 'sp.stdout_fd()', 'sp.stderr_fd()'} <= nb)
+                bounded = False
+                bound_txt = nf(size)
+                rd = ref_decl(size)
+                vd = next((v for v in walk(lp) if v.get('kind') == 'VarDecl' and rd and v.get('id') == rd.get('id') and kids(v)), None)
+                e = strip(kids(vd)[-1]) if vd is not None else strip(size)
+                if e.get('kind') == 'CallExpr' and call_name(e) == 'min':
+                    consts = [int_value(a) for a in call_args(e) if int_value(a) is not None]
+                    bounded = bool(consts) and min(consts) <= PIPE_BUF
+                    bound_txt = 'min(..., %s)' % consts
+                reported = any('count' in s_ and fd in s_ for s_ in truthy_facts(w)) or any('POLLOUT' in s_ or '& 4' in s_ or '(4 & ' in s_ for s_ in truthy_facts(w))
+                ctx.check(nonblocking or (bounded and reported), R, '%s|write#%d' % (lab, i), w, 'non-blocking descriptor' if nonblocking else 'at most PIPE_BUF bytes after POLLOUT',
+                          'write of %s bytes to the blocking descriptor %s inside the poll loop: poll only guarantees PIPE_BUF (%d) bytes of room, so the parent can block in write() while the child blocks writing its output - a deadlock no deadline can break' % (bound_txt, fd, PIPE_BUF))
 
     # ---------------- R3
-    R = 'C15-R3'
-    EVID = ('bytes_read', 'bytes_written', 'offset', 'empty()', 'should_close')
-    for f, lab in ((comm, 'communicate'), (runp, 'run_process')):
-        lp = poll_loops(body_of(f))[0]
-        retire = [c for c in walk(lp) if (c.get('kind') == 'CXXMemberCallExpr' and call_name(c) == 'remove' and canon(member_call_object(c)) == 'p') or (c.get('kind') == 'CallExpr' and call_name(c) == 'close')]
-        ctx.require(len(retire) >= 2, '%s: descriptor retirement sites not found' % lab)
-        for i, c in enumerate(retire):
-            fr = facts_rel(c)
-            tf = truthy_facts(c)
-            ev = [r for r in fr if any(k in r[0] or k in r[2] for k in EVID)] + [t for t in tf if any(k in t for k in EVID)]
-            # the evidence must be a zero/negative count, a completed payload, or an empty read; not merely a poll flag
-            good = any((('bytes_read' in a and op in ('==', '<=') and b == '0') or ('bytes_written' in a and ((op in ('==', '<=', '<') and b == '0'))) or
-                        (op == '==' and 'offset' in a + b and 'size' in a + b)) for a, op, b in fr) or any('empty()' in t or 'should_close' in t for t in tf)
-            # `!(bytes_read > 0) && !(bytes_read < 0)` is how an else-else branch shows zero
-            z = [r for r in fr if r[0] in ('bytes_read', 'bytes_written')]
-            if not good and any(op == '<=' and b == '0' for a, op, b in z) and any(op == '>=' and b == '0' for a, op, b in z):
-                good = True
-            if not good and not ev:
-                # the guard does not mention a transfer count at all; if it tests the classified result of a repo helper, this rule cannot see the evidence
-                hv = [v for v in walk(lp) if v.get('kind') == 'VarDecl' and kids(v) and any(y.get('kind') == 'CallExpr' and callee_decl(y, u) is not None and body_of(callee_decl(y, u)) is not None for y in walk(v))]
-                if any(v.get('name') and any(v['name'] in (r_[0] + r_[2]) for r_ in fr) for v in hv):
-                    ctx.undecided(R, '%s|retire#%d' % (lab, i), c, 'the descriptor is retired on the classified result of a helper call (%s): the end-of-stream evidence is inside the helper' % [v.get('name') for v in hv][:2])
-                    continue
-            ctx.check(good, R, '%s|retire#%d' % (lab, i), c, 'retired on transfer evidence %s' % (ev[:2],),
-                      'a descriptor is closed/removed inside the poll loop without end-of-stream evidence from the transfer (guard: %s): data still in the pipe (e.g. more than one block pending when POLLHUP is reported) is lost' % (sorted(tf)[:3] + fr[:3]))
-        # flag definitions: should_close_stdin = (offset == size) or true on failed write
-        if lab == 'communicate':
-            sc = next((v for v in walk(lp) if v.get('kind') == 'VarDecl' and 'should_close' in (v.get('name') or '')), None)
-            if sc is not None:
-                asg = [x for x in walk(lp) if x.get('kind') == 'BinaryOperator' and x.get('opcode') == '=' and (ref_decl(x['inner'][0]) or {}).get('id') == sc['id']]
-                vals = [nf(a['inner'][1]) for a in asg]
-                oks = int_value(kids(sc)[-1]) in (0, 1) and all(v_ in ('1', '(stdin_offset == stdin_size)', '(stdin_size == stdin_offset)') for v_ in vals) and any('stdin_offset' in v_ for v_ in vals) and (int_value(kids(sc)[-1]) == 1 or '1' in vals)
-                ctx.check(oks, R, 'communicate|stdin-close-flag', sc, 'stdin is closed when the write failed or the payload is complete', 'stdin close flag is set from %s' % [nf(a['inner'][1]) for a in asg])
-    # drain after the loop
-    lp = poll_loops(rb)[0]
-    after = [s for s in stmts_of(rb) if s.get('_off', 0) > lp.get('_off', 0)]
-    drain = [s for s in after if s.get('kind') == 'CXXForRangeStmt' and any(c.get('kind') == 'CallExpr' and call_name(c) == 'read' for c in walk(s))]
-    okd = len(drain) == 1 and any(canon(x) == 'read_fd_to_buffer' for x in walk(drain[0]) if x.get('kind') == 'DeclRefExpr')
-    if okd:
-        inner = [x for x in walk(drain[0]) if x.get('kind') == 'ForStmt' and for_parts(x)[2] is None]
-        okd = len(inner) == 1
+    with ctx.section('C15-R3', 'C15'):
+        R = 'C15-R3'
+        EVID = ('bytes_read', 'bytes_written', 'offset', 'empty()', 'should_close')
+        for f, lab in ((comm, 'communicate'), (runp, 'run_process')):
+            lp = poll_loops(body_of(f))[0]
+            retire = [c for c in walk(lp) if (c.get('kind') == 'CXXMemberCallExpr' and call_name(c) == 'remove' and canon(member_call_object(c)) == 'p') or (c.get('kind') == 'CallExpr' and call_name(c) == 'close')]
+            ctx.require(len(retire) >= 2, '%s: descriptor retirement sites not found' % lab)
+            for i, c in enumerate(retire):
+                fr = facts_rel(c)
+                tf = truthy_facts(c)
+                ev = [r for r in fr if any(k in r[0] or k in r[2] for k in EVID)] + [t for t in tf if any(k in t for k in EVID)]
+                # the evidence must be a zero/negative count, a completed payload, or an empty read; not merely a poll flag
+                good = any((('bytes_read' in a and op in ('==', '<=') and b == '0') or ('bytes_written' in a and ((op in ('==', '<=', '<') and b == '0'))) or
+                            (op == '==' and 'offset' in a + b and 'size' in a + b)) for a, op, b in fr) or any('empty()' in t or 'should_close' in t for t in tf)
+                # `!(bytes_read > 0) && !(bytes_read < 0)` is how an else-else branch shows zero
+                z = [r for r in fr if r[0] in ('bytes_read', 'bytes_written')]
+                if not good and any(op == '<=' and b == '0' for a, op, b in z) and any(op == '>=' and b == '0' for a, op, b in z):
+                    good = True
+                if not good and not ev:
+                    # the guard does not mention a transfer count at all; if it tests the classified result of a repo helper, this rule cannot see the evidence
+                    hv = [v for v in walk(lp) if v.get('kind') == 'VarDecl' and kids(v) and any(y.get('kind') == 'CallExpr' and callee_decl(y, u) is not None and body_of(callee_decl(y, u)) is not None for y in walk(v))]
+                    if any(v.get('name') and any(v['name'] in (r_[0] + r_[2]) for r_ in fr) for v in hv):
+                        ctx.undecided(R, '%s|retire#%d' % (lab, i), c, 'the descriptor is retired on the classified result of a helper call (%s): the end-of-stream evidence is inside the helper' % [v.get('name') for v in hv][:2])
+                        continue
+                ctx.check(good, R, '%s|retire#%d' % (lab, i), c, 'retired on transfer evidence %s' % (ev[:2],),
+                          'a descriptor is closed/removed inside the poll loop without end-of-stream evidence from the transfer (guard: %s): data still in the pipe (e.g. more than one block pending when POLLHUP is reported) is lost' % (sorted(tf)[:3] + fr[:3]))
+            # flag definitions: should_close_stdin = (offset == size) or true on failed write
+            if lab == 'communicate':
+                sc = next((v for v in walk(lp) if v.get('kind') == 'VarDecl' and 'should_close' in (v.get('name') or '')), None)
+                if sc is not None:
+                    asg = [x for x in walk(lp) if x.get('kind') == 'BinaryOperator' and x.get('opcode') == '=' and (ref_decl(x['inner'][0]) or {}).get('id') == sc['id']]
+                    vals = [nf(a['inner'][1]) for a in asg]
+                    oks = int_value(kids(sc)[-1]) in (0, 1) and all(v_ in ('1', '(stdin_offset == stdin_size)', '(stdin_size == stdin_offset)') for v_ in vals) and any('stdin_offset' in v_ for v_ in vals) and (int_value(kids(sc)[-1]) == 1 or '1' in vals)
+                    ctx.check(oks, R, 'communicate|stdin-close-flag', sc, 'stdin is closed when the write failed or the payload is complete', 'stdin close flag is set from %s' % [nf(a['inner'][1]) for a in asg])
+        # drain after the loop
+        lp = poll_loops(rb)[0]
+        after = [s for s in stmts_of(rb) if s.get('_off', 0) > lp.get('_off', 0)]
+        drain = [s for s in after if s.get('kind') == 'CXXForRangeStmt' and any(c.get('kind') == 'CallExpr' and call_name(c) == 'read' for c in walk(s))]
+        okd = len(drain) == 1 and any(canon(x) == 'read_fd_to_buffer' for x in walk(drain[0]) if x.get('kind') == 'DeclRefExpr')
         if okd:
-            brk = [b for b in walk(inner[0]) if b.get('kind') == 'BreakStmt']
-            for b in brk:
-                fr = facts_rel(b)
-                z = [r for r in fr if r[0] == 'bytes_read']
-                eof = any(op == '<=' and v == '0' for a, op, v in z) and any(op == '>=' and v == '0' for a, op, v in z)
-                again = any(op == '<' and v == '0' for a, op, v in z) and any('EAGAIN' in t or 'errno' in t for t in [nf(n_) for n_, p_ in atoms(path_facts(b)) if p_])
-                okd = okd and (eof or again)
-            okd = okd and len(brk) >= 2
-    if not drain and any(c.get('kind') == 'CallExpr' and call_name(c) == 'read' for s_ in after for c in walk_deep(s_, u)):
-        ctx.undecided(R, 'run_process|post-exit-drain', runp, 'the post-exit drain reads through a helper function: its loop shape is not the one this rule models')
-    else:
-      ctx.check(okd, R, 'run_process|post-exit-drain', drain[0] if drain else runp, 'after the child is reaped every registered output descriptor is read until 0 / EAGAIN', 'run_process has no complete post-exit drain of its output descriptors: output written just before exit is lost')
-    lpc = poll_loops(cb)[0]
-    afterc = [s for s in stmts_of(cb) if s.get('_off', 0) > lpc.get('_off', 0)]
-    dr = [s for s in afterc if s.get('kind') == 'IfStmt' and any(x.get('kind') == 'ForStmt' and for_parts(x)[2] is None and any(c.get('kind') == 'CallExpr' and call_name(c) == 'read' for c in walk(x)) for x in walk(s))]
-    okc = len(dr) == 1
-    if okc:
-        c_ = nf(if_parts(dr[0])[0])
-        okc = 'this.stdout_read_fd' in c_ and 'this.wait(1)' in c_
-        brk = [b for b in walk(dr[0]) if b.get('kind') == 'BreakStmt']
-        okc = okc and len(brk) == 1 and any('empty()' in t for t in truthy_facts(brk[0]))
-        rets = [r for r in walk(cb) if r.get('kind') == 'ReturnStmt' and enclosing(r, ('LambdaExpr',)) is None]
-        okc = okc and all(r['_off'] > dr[0]['_off'] for r in rets)
-    ctx.check(okc, R, 'communicate|post-exit-drain', dr[0] if dr else comm, 'after the child exited, stdout is read until empty before returning', 'communicate has no post-exit drain of stdout: output still in the pipe when the child exits is lost')
+            inner = [x for x in walk(drain[0]) if x.get('kind') == 'ForStmt' and for_parts(x)[2] is None]
+            okd = len(inner) == 1
+            if okd:
+                brk = [b for b in walk(inner[0]) if b.get('kind') == 'BreakStmt']
+                for b in brk:
+                    fr = facts_rel(b)
+                    z = [r for r in fr if r[0] == 'bytes_read']
+                    eof = any(op == '<=' and v == '0' for a, op, v in z) and any(op == '>=' and v == '0' for a, op, v in z)
+                    again = any(op == '<' and v == '0' for a, op, v in z) and any('EAGAIN' in t or 'errno' in t for t in [nf(n_) for n_, p_ in atoms(path_facts(b)) if p_])
+                    okd = okd and (eof or again)
+                okd = okd and len(brk) >= 2
+        if not drain and any(c.get('kind') == 'CallExpr' and call_name(c) == 'read' for s_ in after for c in walk_deep(s_, u)):
+            ctx.undecided(R, 'run_process|post-exit-drain', runp, 'the post-exit drain reads through a helper function: its loop shape is not the one this rule models')
+        else:
+          ctx.check(okd, R, 'run_process|post-exit-drain', drain[0] if drain else runp, 'after the child is reaped every registered output descriptor is read until 0 / EAGAIN', 'run_process has no complete post-exit drain of its output descriptors: output written just before exit is lost')
+        lpc = poll_loops(cb)[0]
+        afterc = [s for s in stmts_of(cb) if s.get('_off', 0) > lpc.get('_off', 0)]
+        dr = [s for s in afterc if s.get('kind') == 'IfStmt' and any(x.get('kind') == 'ForStmt' and for_parts(x)[2] is None and any(c.get('kind') == 'CallExpr' and call_name(c) == 'read' for c in walk(x)) for x in walk(s))]
+        okc = len(dr) == 1
+        if okc:
+            c_ = nf(if_parts(dr[0])[0])
+            okc = 'this.stdout_read_fd' in c_ and 'this.wait(1)' in c_
+            brk = [b for b in walk(dr[0]) if b.get('kind') == 'BreakStmt']
+            okc = okc and len(brk) == 1 and any('empty()' in t for t in truthy_facts(brk[0]))
+            rets = [r for r in walk(cb) if r.get('kind') == 'ReturnStmt' and enclosing(r, ('LambdaExpr',)) is None]
+            okc = okc and all(r['_off'] > dr[0]['_off'] for r in rets)
+        ctx.check(okc, R, 'communicate|post-exit-drain', dr[0] if dr else comm, 'after the child exited, stdout is read until empty before returning', 'communicate has no post-exit drain of stdout: output still in the pipe when the child exits is lost')
 
     # ---------------- R4
-    R = 'C15-R4'
-    cbd = body_of(ctor)
-    pc = next((v for v in walk(cbd) if v.get('kind') == 'VarDecl' and 'parent_fds_to_close' == v.get('name')), None)
-    ctx.require(pc is not None, 'Subprocess ctor: parent_fds_to_close not found')
-    want = {'stdin_fd': ('first', 'this.stdin_write_fd', 'second'), 'stdout_fd': ('second', 'this.stdout_read_fd', 'first'), 'stderr_fd': ('second', 'this.stderr_read_fd', 'first')}
-    for prm, (child_end, member, parent_end) in want.items():
-        blk = next((x for x in walk(cbd) if x.get('kind') == 'IfStmt' and nf(if_parts(x)[0]) in ('(%s == -1)' % prm, '(-1 == %s)' % prm)), None)
-        ok = blk is not None
-        if ok:
-            st = [nf(s) for s in stmts_of(if_parts(blk)[1]) if s.get('kind') != 'DeclStmt']
-            ok = '(%s = pipefds.%s)' % (prm, child_end) in st and '(%s = pipefds.%s)' % (member, parent_end) in st and 'parent_fds_to_close.emplace(%s)' % prm in st
-        ctx.check(ok, R, 'ctor|%s-ends' % prm, blk or ctor, 'child gets pipefds.%s, parent keeps pipefds.%s, child end queued for closing in the parent' % (child_end, parent_end), 'pipe ends for %s are assigned or queued wrongly: %s' % (prm, st if blk is not None else None))
-    closer = [s for s in stmts_of(cbd) if s.get('kind') == 'CXXForRangeStmt' and any(canon(x) == 'parent_fds_to_close' for x in walk(s) if x.get('kind') == 'DeclRefExpr')]
-    fork = [c for c in walk(cbd) if c.get('kind') == 'CallExpr' and call_name(c) == 'fork']
-    okp = len(closer) == 1 and len(fork) == 1 and closer[0]['_off'] > fork[0]['_off'] and any(c.get('kind') == 'CallExpr' and call_name(c) == 'close' for c in walk(closer[0]))
-    ctx.check(okp, R, 'ctor|parent-closes-child-ends', closer[0] if closer else ctor, 'after fork the parent closes the child-side ends', 'the parent does not close the child-side pipe ends after fork (the child never sees EOF / the parent never sees the pipe close)')
-    child = next((x for x in walk(cbd) if x.get('kind') == 'IfStmt' and nf(if_parts(x)[0]) in ('(this.child_pid == 0)', '(0 == this.child_pid)')), None)
-    okch = child is not None and not falls_through(if_parts(child)[1]) or (child is not None and any(c.get('kind') == 'CallExpr' and call_name(c) == '_exit' for c in walk(if_parts(child)[1])))
-    cc = sorted(nf(call_args(c)[0]) for c in walk(if_parts(child)[1]) if c.get('kind') == 'CallExpr' and call_name(c) == 'close') if child is not None else []
-    if child is not None and not okch:
-        # the branch may end in a [[noreturn]] helper that execs
-        last_ = [strip(s_) for s_ in stmts_of(if_parts(child)[1])][-1:] if stmts_of(if_parts(child)[1]) else []
-        if last_ and last_[0].get('kind') == 'CallExpr':
-            d_ = callee_decl(last_[0], u)
-            if d_ is not None and body_of(d_) is not None and not falls_through(body_of(d_)) or (d_ is not None and body_of(d_) is not None and any(c.get('kind') == 'CallExpr' and call_name(c) == '_exit' for c in walk(body_of(d_)))):
-                okch = True
-    ctx.check(okch and cc == ['this.stderr_read_fd', 'this.stdin_write_fd', 'this.stdout_read_fd'], R, 'ctor|child-closes-parent-ends', child or ctor, 'the child closes the parent-side ends and never returns', 'child branch closes %s' % cc)
-    # run_process closes what is still registered
-    for mp in ('read_fd_to_buffer', 'write_fd_to_buffer'):
-        cl = [s for s in after if s.get('kind') == 'CXXForRangeStmt' and any(canon(x) == mp for x in walk(s) if x.get('kind') == 'DeclRefExpr') and any(c.get('kind') == 'CallExpr' and call_name(c) == 'close' and nf(call_args(c)[0]).endswith('.first') for c in walk(s))]
-        rets = [r for r in walk(rb) if r.get('kind') == 'ReturnStmt']
-        thr = [t for t in walk(rb) if t.get('kind') == 'CXXThrowExpr' and t['_off'] > lp['_off'] and enclosing(t, LOOPS) is None]
-        ok = len(cl) == 1 and all(cl[0]['_off'] < r['_off'] for r in rets) and all(cl[0]['_off'] < t['_off'] for t in thr) and (not drain or cl[0]['_off'] > drain[0]['_off'])
-        ctx.check(ok, R, 'run_process|closes-%s' % mp, cl[0] if cl else runp, 'every descriptor still in %s is closed before run_process returns or throws its check error' % mp,
-                  'descriptors still registered in %s when the child exits are never closed: each run_process call leaks them' % mp)
-    nos = [x for x in walk(rb) if x.get('kind') == 'IfStmt' and nf(if_parts(x)[0]) == 'stdin_data' and if_parts(x)[2] is not None]
-    okn = len(nos) == 1 and any(c.get('kind') == 'CallExpr' and call_name(c) == 'close' and nf(call_args(c)[0]) == 'sp.stdin_fd()' for c in walk(if_parts(nos[0])[2]))
-    ctx.check(okn, R, 'run_process|no-payload-closes-stdin', nos[0] if nos else runp, 'without a payload the child\'s stdin is closed at once', 'stdin is left open when there is no payload (a child reading stdin never sees EOF)')
-    cs0 = [x for x in walk(cb) if x.get('kind') == 'IfStmt' and nf(if_parts(x)[0]) in ('(stdin_size == 0)', '(0 == stdin_size)', '!stdin_size')]
-    okz = len(cs0) == 1 and any(c.get('kind') == 'CallExpr' and call_name(c) == 'close' and nf(call_args(c)[0]) == 'this.stdin_write_fd' for c in walk(if_parts(cs0[0])[1])) and any(nf(s) == '(this.stdin_write_fd = -1)' for s in stmts_of(if_parts(cs0[0])[1]))
-    ctx.check(okz, R, 'communicate|empty-payload-closes-stdin', cs0[0] if cs0 else comm, 'an empty payload closes stdin at once and forgets the descriptor', 'communicate with an empty payload does not close stdin')
+    with ctx.section('C15-R4', 'C15'):
+        R = 'C15-R4'
+        cbd = body_of(ctor)
+        pc = next((v for v in walk(cbd) if v.get('kind') == 'VarDecl' and 'parent_fds_to_close' == v.get('name')), None)
+        ctx.require(pc is not None, 'Subprocess ctor: parent_fds_to_close not found')
+        want = {'stdin_fd': ('first', 'this.stdin_write_fd', 'second'), 'stdout_fd': ('second', 'this.stdout_read_fd', 'first'), 'stderr_fd': ('second', 'this.stderr_read_fd', 'first')}
+        for prm, (child_end, member, parent_end) in want.items():
+            blk = next((x for x in walk(cbd) if x.get('kind') == 'IfStmt' and nf(if_parts(x)[0]) in ('(%s == -1)' % prm, '(-1 == %s)' % prm)), None)
+            ok = blk is not None
+            if ok:
+                st = [nf(s) for s in stmts_of(if_parts(blk)[1]) if s.get('kind') != 'DeclStmt']
+                ok = '(%s = pipefds.%s)' % (prm, child_end) in st and '(%s = pipefds.%s)' % (member, parent_end) in st and 'parent_fds_to_close.emplace(%s)' % prm in st
+            ctx.check(ok, R, 'ctor|%s-ends' % prm, blk or ctor, 'child gets pipefds.%s, parent keeps pipefds.%s, child end queued for closing in the parent' % (child_end, parent_end), 'pipe ends for %s are assigned or queued wrongly: %s' % (prm, st if blk is not None else None))
+        closer = [s for s in stmts_of(cbd) if s.get('kind') == 'CXXForRangeStmt' and any(canon(x) == 'parent_fds_to_close' for x in walk(s) if x.get('kind') == 'DeclRefExpr')]
+        fork = [c for c in walk(cbd) if c.get('kind') == 'CallExpr' and call_name(c) == 'fork']
+        okp = len(closer) == 1 and len(fork) == 1 and closer[0]['_off'] > fork[0]['_off'] and any(c.get('kind') == 'CallExpr' and call_name(c) == 'close' for c in walk(closer[0]))
+        ctx.check(okp, R, 'ctor|parent-closes-child-ends', closer[0] if closer else ctor, 'after fork the parent closes the child-side ends', 'the parent does not close the child-side pipe ends after fork (the child never sees EOF / the parent never sees the pipe close)')
+        child = next((x for x in walk(cbd) if x.get('kind') == 'IfStmt' and nf(if_parts(x)[0]) in ('(this.child_pid == 0)', '(0 == this.child_pid)')), None)
+        okch = child is not None and not falls_through(if_parts(child)[1]) or (child is not None and any(c.get('kind') == 'CallExpr' and call_name(c) == '_exit' for c in walk(if_parts(child)[1])))
+        cc = sorted(nf(call_args(c)[0]) for c in walk(if_parts(child)[1]) if c.get('kind') == 'CallExpr' and call_name(c) == 'close') if child is not None else []
+        if child is not None and not okch:
+            # the branch may end in a [[noreturn]] helper that execs
+            last_ = [strip(s_) for s_ in stmts_of(if_parts(child)[1])][-1:] if stmts_of(if_parts(child)[1]) else []
+            if last_ and last_[0].get('kind') == 'CallExpr':
+                d_ = callee_decl(last_[0], u)
+                if d_ is not None and body_of(d_) is not None and not falls_through(body_of(d_)) or (d_ is not None and body_of(d_) is not None and any(c.get('kind') == 'CallExpr' and call_name(c) == '_exit' for c in walk(body_of(d_)))):
+                    okch = True
+        ctx.check(okch and cc == ['this.stderr_read_fd', 'this.stdin_write_fd', 'this.stdout_read_fd'], R, 'ctor|child-closes-parent-ends', child or ctor, 'the child closes the parent-side ends and never returns', 'child branch closes %s' % cc)
+        # run_process closes what is still registered
+        for mp in ('read_fd_to_buffer', 'write_fd_to_buffer'):
+            cl = [s for s in after if s.get('kind') == 'CXXForRangeStmt' and any(canon(x) == mp for x in walk(s) if x.get('kind') == 'DeclRefExpr') and any(c.get('kind') == 'CallExpr' and call_name(c) == 'close' and nf(call_args(c)[0]).endswith('.first') for c in walk(s))]
+            rets = [r for r in walk(rb) if r.get('kind') == 'ReturnStmt']
+            thr = [t for t in walk(rb) if t.get('kind') == 'CXXThrowExpr' and t['_off'] > lp['_off'] and enclosing(t, LOOPS) is None]
+            ok = len(cl) == 1 and all(cl[0]['_off'] < r['_off'] for r in rets) and all(cl[0]['_off'] < t['_off'] for t in thr) and (not drain or cl[0]['_off'] > drain[0]['_off'])
+            ctx.check(ok, R, 'run_process|closes-%s' % mp, cl[0] if cl else runp, 'every descriptor still in %s is closed before run_process returns or throws its check error' % mp,
+                      'descriptors still registered in %s when the child exits are never closed: each run_process call leaks them' % mp)
+        nos = [x for x in walk(rb) if x.get('kind') == 'IfStmt' and nf(if_parts(x)[0]) == 'stdin_data' and if_parts(x)[2] is not None]
+        okn = len(nos) == 1 and any(c.get('kind') == 'CallExpr' and call_name(c) == 'close' and nf(call_args(c)[0]) == 'sp.stdin_fd()' for c in walk(if_parts(nos[0])[2]))
+        ctx.check(okn, R, 'run_process|no-payload-closes-stdin', nos[0] if nos else runp, 'without a payload the child\'s stdin is closed at once', 'stdin is left open when there is no payload (a child reading stdin never sees EOF)')
+        cs0 = [x for x in walk(cb) if x.get('kind') == 'IfStmt' and nf(if_parts(x)[0]) in ('(stdin_size == 0)', '(0 == stdin_size)', '!stdin_size')]
+        okz = len(cs0) == 1 and any(c.get('kind') == 'CallExpr' and call_name(c) == 'close' and nf(call_args(c)[0]) == 'this.stdin_write_fd' for c in walk(if_parts(cs0[0])[1])) and any(nf(s) == '(this.stdin_write_fd = -1)' for s in stmts_of(if_parts(cs0[0])[1]))
+        ctx.check(okz, R, 'communicate|empty-payload-closes-stdin', cs0[0] if cs0 else comm, 'an empty payload closes stdin at once and forgets the descriptor', 'communicate with an empty payload does not close stdin')
 
     # ---------------- R5
-    R = 'C15-R5'
-    # the forked child never comes back into the caller's code: the branch taken when fork() returned
-    # 0 ends in exec / _exit on every path and contains no throw or return of its own
-    for f_ in u.functions:
-        if body_of(f_) is None or not strip_targs(u.qualname(f_)).startswith('phosg::'):
-            continue
-        forks = [c for c in walk(body_of(f_)) if c.get('kind') == 'CallExpr' and call_name(c) in ('fork', 'vfork')]
-        for fk in forks:
-            asg = fk.get('_p')
-            while asg is not None and asg.get('kind') in TRANSPARENT | {'ImplicitCastExpr'}:
-                asg = asg.get('_p')
-            holder = None
-            if asg is not None and asg.get('kind') == 'BinaryOperator' and asg.get('opcode') == '=':
-                holder = canon(asg['inner'][0])
-            elif asg is not None and asg.get('kind') == 'VarDecl':
-                holder = asg.get('name')
-            child = None
-            for x in walk(body_of(f_)):
-                if x.get('kind') == 'IfStmt' and x.get('_off', 0) > fk.get('_off', 0):
-                    cond, then, els = if_parts(x)
-                    r_ = relation(cond, True)
-                    if r_ and r_[1] == '==' and {canon(r_[0]), canon(r_[2])} == {holder, '0'}:
-                        child = then
-                    elif r_ is None and holder and nf(cond) == '!%s' % holder:
-                        child = then
-            if child is None:
-                ctx.undecided(R, '%s|fork-child' % f_.get('name'), fk, 'the branch executed by the forked child (`%s == 0`) was not found' % holder)
+    with ctx.section('C15-R5', 'C15'):
+        R = 'C15-R5'
+        # the forked child never comes back into the caller's code: the branch taken when fork() returned
+        # 0 ends in exec / _exit on every path and contains no throw or return of its own
+        for f_ in u.functions:
+            if body_of(f_) is None or not strip_targs(u.qualname(f_)).startswith('phosg::'):
                 continue
-            esc = [x for x in walk(child) if x.get('kind') in ('CXXThrowExpr', 'ReturnStmt') and enclosing(x, ('LambdaExpr',)) is None]
-            ctx.check(not falls_through(child) and not esc, R, '%s|fork-child-never-returns' % f_.get('name'), esc[0] if esc else child, 'the child branch ends in exec / _exit on every path',
-                      'the forked child can leave its branch (%s): a second copy of the calling program keeps running with the parent\'s state, and the parent later reports that copy\'s exit status' % (src_text(esc[0], 60) if esc else 'it falls through'))
-    db = body_of(dtor)
-    di = [x for x in walk(db) if x.get('kind') == 'IfStmt']
-    # a kill followed by a blocking wait, both executed exactly when a child exists and a non-blocking
-    # wait reported it still running (as nested/early-return guards or one condition)
-    kills = [c for c in walk(db) if c.get('kind') == 'CXXMemberCallExpr' and call_name(c) == 'kill' and is_this(member_call_object(c) or {'kind': 'CXXThisExpr'})]
-    waits = [c for c in walk(db) if c.get('kind') == 'CXXMemberCallExpr' and call_name(c) == 'wait' and not [a for a in call_args(c) if a.get('kind') != 'CXXDefaultArgExpr']]
-    okd = len(kills) == 1 and len(waits) == 1 and kills[0]['_off'] < waits[0]['_off']
-    if okd:
-        fr = facts_rel(kills[0])
-        has_child = any((a == 'this.child_pid' and op == '>=' and b == '0') or (a == 'this.child_pid' and op == '>' and b == '-1') for a, op, b in fr)
-        running = any((a == 'this.wait(1)' and op == '==' and b == '-1') or (b == 'this.wait(1)' and op == '==' and a == '-1') for a, op, b in fr)
-        ks_, ws_ = containing_statement(kills[0]), containing_statement(waits[0])
-        same_guard = ks_ is not None and ws_ is not None and ks_.get('_p') is ws_.get('_p') and ks_.get('_p') is not None and \
-            [x for x in kids(ks_['_p'])].index(ws_) == [x for x in kids(ks_['_p'])].index(ks_) + 1
-        okd = has_child and running and same_guard
-    ctx.check(okd, R, 'destructor|reaps', dtor, 'a still-running child is killed and then waited for', 'the destructor does not kill-then-wait a running child (zombie / orphan)')
-    wb = body_of(wait)
-    first = stmts_of(wb)[0] if stmts_of(wb) else {}
-    okw = first.get('kind') == 'IfStmt' and nf(if_parts(first)[0]) in ('(0 <= this.exit_status)', '(this.exit_status >= 0)') and any(r.get('kind') == 'ReturnStmt' and nf(kids(r)[0]) == 'this.exit_status' for r in walk(if_parts(first)[1]))
-    wp = [c for c in walk(wb) if c.get('kind') == 'CallExpr' and call_name(c) == 'waitpid']
-    okw = okw and len(wp) == 1 and nf(call_args(wp[0])[0]) == 'this.child_pid' and nf(call_args(wp[0])[1]) == '&this.exit_status'
-    ctx.check(okw, R, 'wait|caches-status', wait, 'wait() returns the cached status once the child was reaped and passes &exit_status to waitpid', 'wait() status caching changed')
-    ck = [x for x in walk(rb) if x.get('kind') == 'IfStmt' and any((ref_decl(y) or {}).get('name') == 'check' for y in walk(if_parts(x)[0]))]
-    okk = len(ck) == 1 and nf(if_parts(ck[0])[0]) in ('(check && sp.wait())', '(check && (sp.wait() != 0))', '(check && (0 != sp.wait()))') and any(t.get('kind') == 'CXXThrowExpr' for t in walk(if_parts(ck[0])[1]))
-    ctx.check(okk, R, 'run_process|check-raw-status', ck[0] if ck else runp, 'check=true throws iff the raw wait status is non-zero',
-              'the check condition is `%s`, not the raw wait status: a child killed by a signal (exit-code bits 0) - including run_process\'s own timeout kill - no longer throws' % (nf(if_parts(ck[0])[0]) if ck else None))
-    kills = [(nf(call_args(c)[0]), c) for c in walk(lp) if c.get('kind') == 'CXXMemberCallExpr' and call_name(c) == 'kill']
-    okt = sorted(k for k, _ in kills) == ['15', '9'] and all(any('timeout_usecs' in t for t in truthy_facts(c)) for _, c in kills)
-    ctx.check(okt, R, 'run_process|timeout-signals', kills[0][1] if kills else runp, 'on timeout the child gets SIGTERM, then SIGKILL', 'timeout handling in run_process changed: %s' % [k for k, _ in kills])
-    es = [x for x in walk(lp) if x.get('kind') == 'BinaryOperator' and x.get('opcode') == '=' and nf(x['inner'][0]) == 'ret.exit_status']
-    ctx.check(len(es) == 1 and nf(es[0]['inner'][1]) == 'sp.wait(1)', R, 'run_process|status-recorded', es[0] if es else runp, 'exit_status is the value the reaping wait returned', 'exit_status is not taken from sp.wait(true)')
-    tk = [x for x in walk(cb) if x.get('kind') == 'IfStmt' and nf(if_parts(x)[0]) in ('(deadline_usecs && (this.wait(1) < 0))',) and x['_off'] > lpc['_off']]
-    okm = len(tk) == 1 and [nf(s) for s in stmts_of(if_parts(tk[0])[1])][:1] == ['this.kill(9)'] and any(t.get('kind') == 'CXXThrowExpr' for t in walk(if_parts(tk[0])[1]))
-    ctx.check(okm, R, 'communicate|timeout-kills', tk[0] if tk else comm, 'a timed-out child is killed and the caller is told', 'communicate timeout handling changed')
+            forks = [c for c in walk(body_of(f_)) if c.get('kind') == 'CallExpr' and call_name(c) in ('fork', 'vfork')]
+            for fk in forks:
+                asg = fk.get('_p')
+                while asg is not None and asg.get('kind') in TRANSPARENT | {'ImplicitCastExpr'}:
+                    asg = asg.get('_p')
+                holder = None
+                if asg is not None and asg.get('kind') == 'BinaryOperator' and asg.get('opcode') == '=':
+                    holder = canon(asg['inner'][0])
+                elif asg is not None and asg.get('kind') == 'VarDecl':
+                    holder = asg.get('name')
+                child = None
+                for x in walk(body_of(f_)):
+                    if x.get('kind') == 'IfStmt' and x.get('_off', 0) > fk.get('_off', 0):
+                        cond, then, els = if_parts(x)
+                        r_ = relation(cond, True)
+                        if r_ and r_[1] == '==' and {canon(r_[0]), canon(r_[2])} == {holder, '0'}:
+                            child = then
+                        elif r_ is None and holder and nf(cond) == '!%s' % holder:
+                            child = then
+                if child is None:
+                    ctx.undecided(R, '%s|fork-child' % f_.get('name'), fk, 'the branch executed by the forked child (`%s == 0`) was not found' % holder)
+                    continue
+                esc = [x for x in walk(child) if x.get('kind') in ('CXXThrowExpr', 'ReturnStmt') and enclosing(x, ('LambdaExpr',)) is None]
+                ctx.check(not falls_through(child) and not esc, R, '%s|fork-child-never-returns' % f_.get('name'), esc[0] if esc else child, 'the child branch ends in exec / _exit on every path',
+                          'the forked child can leave its branch (%s): a second copy of the calling program keeps running with the parent\'s state, and the parent later reports that copy\'s exit status' % (src_text(esc[0], 60) if esc else 'it falls through'))
+        db = body_of(dtor)
+        di = [x for x in walk(db) if x.get('kind') == 'IfStmt']
+        # a kill followed by a blocking wait, both executed exactly when a child exists and a non-blocking
+        # wait reported it still running (as nested/early-return guards or one condition)
+        kills = [c for c in walk(db) if c.get('kind') == 'CXXMemberCallExpr' and call_name(c) == 'kill' and is_this(member_call_object(c) or {'kind': 'CXXThisExpr'})]
+        waits = [c for c in walk(db) if c.get('kind') == 'CXXMemberCallExpr' and call_name(c) == 'wait' and not [a for a in call_args(c) if a.get('kind') != 'CXXDefaultArgExpr']]
+        okd = len(kills) == 1 and len(waits) == 1 and kills[0]['_off'] < waits[0]['_off']
+        if okd:
+            fr = facts_rel(kills[0])
+            has_child = any((a == 'this.child_pid' and op == '>=' and b == '0') or (a == 'this.child_pid' and op == '>' and b == '-1') for a, op, b in fr)
+            running = any((a == 'this.wait(1)' and op == '==' and b == '-1') or (b == 'this.wait(1)' and op == '==' and a == '-1') for a, op, b in fr)
+            ks_, ws_ = containing_statement(kills[0]), containing_statement(waits[0])
+            same_guard = ks_ is not None and ws_ is not None and ks_.get('_p') is ws_.get('_p') and ks_.get('_p') is not None and \
+                [x for x in kids(ks_['_p'])].index(ws_) == [x for x in kids(ks_['_p'])].index(ks_) + 1
+            okd = has_child and running and same_guard
+        ctx.check(okd, R, 'destructor|reaps', dtor, 'a still-running child is killed and then waited for', 'the destructor does not kill-then-wait a running child (zombie / orphan)')
+        wb = body_of(wait)
+        first = stmts_of(wb)[0] if stmts_of(wb) else {}
+        okw = first.get('kind') == 'IfStmt' and nf(if_parts(first)[0]) in ('(0 <= this.exit_status)', '(this.exit_status >= 0)') and any(r.get('kind') == 'ReturnStmt' and nf(kids(r)[0]) == 'this.exit_status' for r in walk(if_parts(first)[1]))
+        wp = [c for c in walk(wb) if c.get('kind') == 'CallExpr' and call_name(c) == 'waitpid']
+        okw = okw and len(wp) == 1 and nf(call_args(wp[0])[0]) == 'this.child_pid' and nf(call_args(wp[0])[1]) == '&this.exit_status'
+        ctx.check(okw, R, 'wait|caches-status', wait, 'wait() returns the cached status once the child was reaped and passes &exit_status to waitpid', 'wait() status caching changed')
+        ck = [x for x in walk(rb) if x.get('kind') == 'IfStmt' and any((ref_decl(y) or {}).get('name') == 'check' for y in walk(if_parts(x)[0]))]
+        okk = len(ck) == 1 and nf(if_parts(ck[0])[0]) in ('(check && sp.wait())', '(check && (sp.wait() != 0))', '(check && (0 != sp.wait()))') and any(t.get('kind') == 'CXXThrowExpr' for t in walk(if_parts(ck[0])[1]))
+        ctx.check(okk, R, 'run_process|check-raw-status', ck[0] if ck else runp, 'check=true throws iff the raw wait status is non-zero',
+                  'the check condition is `%s`, not the raw wait status: a child killed by a signal (exit-code bits 0) - including run_process\'s own timeout kill - no longer throws' % (nf(if_parts(ck[0])[0]) if ck else None))
+        kills = [(nf(call_args(c)[0]), c) for c in walk(lp) if c.get('kind') == 'CXXMemberCallExpr' and call_name(c) == 'kill']
+        okt = sorted(k for k, _ in kills) == ['15', '9'] and all(any('timeout_usecs' in t for t in truthy_facts(c)) for _, c in kills)
+        ctx.check(okt, R, 'run_process|timeout-signals', kills[0][1] if kills else runp, 'on timeout the child gets SIGTERM, then SIGKILL', 'timeout handling in run_process changed: %s' % [k for k, _ in kills])
+        es = [x for x in walk(lp) if x.get('kind') == 'BinaryOperator' and x.get('opcode') == '=' and nf(x['inner'][0]) == 'ret.exit_status']
+        ctx.check(len(es) == 1 and nf(es[0]['inner'][1]) == 'sp.wait(1)', R, 'run_process|status-recorded', es[0] if es else runp, 'exit_status is the value the reaping wait returned', 'exit_status is not taken from sp.wait(true)')
+        tk = [x for x in walk(cb) if x.get('kind') == 'IfStmt' and nf(if_parts(x)[0]) in ('(deadline_usecs && (this.wait(1) < 0))',) and x['_off'] > lpc['_off']]
+        okm = len(tk) == 1 and [nf(s) for s in stmts_of(if_parts(tk[0])[1])][:1] == ['this.kill(9)'] and any(t.get('kind') == 'CXXThrowExpr' for t in walk(if_parts(tk[0])[1]))
+        ctx.check(okm, R, 'communicate|timeout-kills', tk[0] if tk else comm, 'a timed-out child is killed and the caller is told', 'communicate timeout handling changed')
     ctx.note('Not decided: completeness and deadlock-freedom under all payload sizes and child timings (kernel pipe capacities, scheduling).')
